@@ -377,6 +377,20 @@ def crash_hunt(batch, pending):
     return crashes
 
 
+def _minimise_isolated(batch, prop, plan, rule):
+    """Minimise in a process of its own: a candidate sub-plan may kill the interpreter (the code under test
+    crashing on it), which must cost the minimisation, not the verdict."""
+    from concurrent.futures.process import BrokenProcessPool
+
+    ctx = mp.get_context("spawn")
+    try:
+        with ProcessPoolExecutor(max_workers=1, mp_context=ctx, initializer=worker_init, initargs=(REPO,)) as ex1:
+            return ex1.submit(minimise_task, prop, plan, rule, 60.0).result(timeout=CHUNK_WALL_S)
+    except (BrokenProcessPool, TimeoutError):
+        batch.probes["minimiser_process_died_unminimised_plan_reported"] += 1
+        return {"plan": plan, "reproduced": None, "tries": 0}
+
+
 def run_batch(prop, tier, verif_seed, runs=None, budget_s=None):
     from concurrent.futures.process import BrokenProcessPool
 
@@ -413,7 +427,7 @@ def run_batch(prop, tier, verif_seed, runs=None, budget_s=None):
                     continue
                 i, seed, v = members[0]
                 plan = mod.generate(seed, tier)
-                mres = ex.submit(minimise_task, prop, plan, rule, 60.0).result(timeout=CHUNK_WALL_S)
+                mres = _minimise_isolated(batch, prop, plan, rule)
                 path = write_replay(prop, seed, tier, mres["plan"], rule, v, mres)
                 ok = verify_replay(prop, path, rule)
                 if not ok and mres["plan"] != plan:
